@@ -247,6 +247,22 @@ func (d *Descriptor) readAsMapEntry(out Outputter, data []byte) (n int, err erro
 
 	l := len(data)
 
+	// The key and the value are each omitted from the data if they are empty or
+	// zero, but a JSON object member needs both.
+	var seenKey, seenValue bool
+	key, value := &d.Elements[0], &d.Elements[1]
+	defer func() {
+		if err != nil {
+			return
+		}
+		if !seenKey {
+			_, err = key.read(out, nil)
+		}
+		if err == nil && !seenValue {
+			err = value.readAbsent(out)
+		}
+	}()
+
 	var offset int
 	for offset < l {
 		wt, index, n := plenccore.ReadTag(data[offset:])
@@ -273,6 +289,16 @@ func (d *Descriptor) readAsMapEntry(out Outputter, data []byte) (n int, err erro
 			offset += n
 			continue
 		}
+		if elt == value && !seenKey {
+			// The key was omitted, so it is the empty string
+			if _, err := key.read(out, nil); err != nil {
+				return 0, err
+			}
+		}
+		seenKey = true
+		if elt == value {
+			seenValue = true
+		}
 
 		fl := l
 		if wt == plenccore.WTLength {
@@ -297,6 +323,18 @@ func (d *Descriptor) readAsMapEntry(out Outputter, data []byte) (n int, err erro
 	}
 
 	return offset, nil
+}
+
+// readAbsent outputs the value for a field that is not present in the data.
+// That's null if the field can tell it isn't present, and the zero value
+// otherwise.
+func (d *Descriptor) readAbsent(out Outputter) error {
+	if d.ExplicitPresence {
+		out.Raw("null")
+		return nil
+	}
+	_, err := d.read(out, nil)
+	return err
 }
 
 func (d *Descriptor) readAsStruct(out Outputter, data []byte) (n int, err error) {
